@@ -558,6 +558,10 @@ class SimProc:
                  lambda: self._exit(-b[1], '', ''))
         elif kind == 'hang':
             CTX.rec.count('fault.hang')
+            if len(b) > 1 and b[1] == 'orphan':
+                # a child of the command holds the write ends of the pipes
+                self.pipes_held = self._cap_out or self._cap_err
+                CTX.rec.count('fault.hang_with_orphan_holding_pipes')
         elif kind == 'spin':
             CTX.rec.count('fault.spin')
         elif kind == 'alloc':
@@ -604,12 +608,15 @@ class SimProc:
         if timeout is not None:
             h = S.at(S.clock + timeout, lambda: dl.__setitem__(0, True))
         try:
-            S.block(lambda: self.exited or self.killed or dl[0],
-                    'communicate')
+            # end-of-file on the pipes: when the process has gone - unless an
+            # orphaned child still holds them
+            S.block(lambda: self.exited or (self.killed and not getattr(
+                self, 'pipes_held', False)) or dl[0], 'communicate')
         finally:
             if h is not None:
                 S.cancel(h)
-        if self.exited or self.killed:
+        if self.exited or (self.killed and not getattr(self, 'pipes_held',
+                                                        False)):
             self._reap()
             CTX.rec.on_done(self, False)
             # streams that are not pipes are not captured (None), as in
